@@ -413,9 +413,14 @@ class USBStreamOutEndpoint(Elaboratable):
         with m.If(data_is_lost):
             m.d.usb += overflow.eq(1)
 
-        # We'll clear the overflow flag and byte counter when the packet is done.
-        with m.Elif(fifo.write_commit | fifo.write_discard):
+        # We'll keep the overflow flag until the next token: it both discards the packet when its
+        # completion strobe arrives and NAKs it when the response is requested, which can be many
+        # cycles later (e.g. full speed on a 60MHz PHY).
+        with m.Elif(tokenizer.new_token):
             m.d.usb += overflow.eq(0)
+
+        # We'll clear the byte counter when the packet is done.
+        with m.If(fifo.write_commit | fifo.write_discard):
             m.d.usb += rx_cnt.eq(0)
 
         # We'll toggle our DATA PID each time we issue an ACK to the host [USB 2.0: 8.6.2].
